@@ -116,6 +116,7 @@ class Faults:
         self.fail_at = -1
         self.fired = None
         self.ops = []
+        self.kind = False          # False: OSError; True: a BaseException that is no Exception (like KeyboardInterrupt)
 
     def tick(self, name):
         if not self.armed:
@@ -126,6 +127,8 @@ class Faults:
         if self.count == self.fail_at:          # symbolic comparison: the solver walks through every operation
             with notrace():
                 self.fired = "%s (#%d)" % (name, self.count)
+            if self.kind:
+                raise Boom("interrupt (not an Exception subclass) at operation %s" % name)
             raise OSError("injected fault at operation %s" % name)
 
 
@@ -213,14 +216,16 @@ def _gen_of(path):
 
 
 @harness
-def faults(fail_at: int, zipped: bool, phase: int, older: bool, corpus: int, fail_at2: int) -> bool:
-    zipped, phase, older, corpus = pickb(zipped), pick(phase, 0, 2), pickb(older), pick(corpus, 0, 2)
+def faults(fail_at: int, zipped: bool, phase: int, older: bool, corpus: int, fail_at2: int, intr: bool) -> bool:
+    zipped, phase, older, corpus, intr = pickb(zipped), pick(phase, 0, 2), pickb(older), pick(corpus, 0, 2), pickb(intr)
     install_faults()
     base = _os.path.join(_os.environ.get("VERIF_SCRATCH", "/tmp"), "c14_%d" % _os.getpid())
     p = _os.path.join(base, "m.zip" if zipped else "m")
     save = mx.zip_model if zipped else mx.write_model
     label("%s, corpus %d, fault in %s%s" % ("zip" if zipped else "dir", corpus, ("save", "load", "two consecutive saves")[phase], ", older generation present" if older else ""))
-    FAULTS.armed, FAULTS.count, FAULTS.fired, FAULTS.ops = False, 0, None, []
+    FAULTS.armed, FAULTS.count, FAULTS.fired, FAULTS.ops, FAULTS.kind = False, 0, None, [], intr
+    if intr:
+        label("the fault is an interrupt (BaseException)")
     try:
         with notrace():
             _sh.rmtree(base, ignore_errors=True)
@@ -308,6 +313,21 @@ def faults(fail_at: int, zipped: bool, phase: int, older: bool, corpus: int, fai
 
 
 NOPS = 20
+def _fparts(tier):
+    return [dict(p_, corpus=0, fail_at2=1) for p_ in ([dict(zipped=z, phase=0, older=False, fail_at=[lo, lo + 2]) for z in (False, True) for lo in range(1, NOPS, 3)] +
+                                                      [dict(zipped=z, phase=1, older=False, fail_at=[lo, lo + 3]) for z in (False, True) for lo in range(1, 16, 4)] +
+                                                      [dict(zipped=z, phase=0, older=True, fail_at=[lo, lo + 2]) for z in (False, True) for lo in (1, 4)])] + \
+        ([dict(zipped=z, phase=2, older=False, corpus=0, fail_at=[lo, lo + 2], fail_at2=[lo2, lo2 + 3]) for z in (False, True) for lo in (1, 4, 7) for lo2 in (1, 5)] if tier == "quick" else
+         [dict(zipped=z, phase=ph, older=False, corpus=c_, fail_at=[lo, lo + 2], fail_at2=[1, 1] if ph != 2 else [lo2, lo2 + 5]) for z in (False, True) for ph in (0, 1, 2) for c_ in (0, 1, 2)
+          for lo in range(1, 2 * NOPS, 3) for lo2 in ((1, 7, 13) if ph == 2 else (1,))])
+
+
+_FNAT = [dict(fail_at=k, zipped=z, phase=ph, older=o, corpus=k % 3, fail_at2=(k * 2) % 11 + 1, intr=False) for (k, z, ph, o) in
+         ((1, False, 0, False), (2, False, 0, True), (5, True, 0, False), (19, True, 0, True), (20, False, 0, False), (3, False, 1, False), (2, True, 1, False), (12, True, 0, False),
+          (9, False, 0, False), (3, True, 2, False), (8, False, 2, False), (14, True, 2, False), (30, True, 2, False))] + \
+        [dict(fail_at=k, zipped=z, phase=ph, older=False, corpus=0, fail_at2=1, intr=True) for (k, z, ph) in ((3, False, 1), (4, True, 1), (9, True, 1), (2, False, 0), (6, True, 0), (10, False, 0), (14, True, 0))]
+
+
 QUERIES = [
     Query("rotation", rotation, pre=[],
           partitions=lambda tier, seed: [dict(backup=True, e0=True), dict(backup=True, e0=False), dict(backup=False)],
@@ -318,15 +338,10 @@ QUERIES = [
                                "step": "one call of _increment_backups from an arbitrary state (inductive step)", "max_backups": 3},
           outside=["file-system semantics beyond the modelled rename/unlink/rmtree (permissions, cross-device renames)"]),
     Query("faults", faults, pre=["1 <= fail_at <= 2 * %d" % NOPS, "0 <= phase <= 2", "0 <= corpus <= 2", "1 <= fail_at2 <= 2 * %d" % NOPS],
-          partitions=lambda tier, seed: [dict(p_, corpus=0, fail_at2=1) for p_ in ([dict(zipped=z, phase=0, older=False, fail_at=[lo, lo + 2]) for z in (False, True) for lo in range(1, NOPS, 3)] +
-                                         [dict(zipped=z, phase=1, older=False, fail_at=[lo, lo + 3]) for z in (False, True) for lo in range(1, 16, 4)] +
-                                         [dict(zipped=z, phase=0, older=True, fail_at=[lo, lo + 2]) for z in (False, True) for lo in (1, 4)])] +
-          ([dict(zipped=z, phase=2, older=False, corpus=0, fail_at=[lo, lo + 2], fail_at2=[lo2, lo2 + 3]) for z in (False, True) for lo in (1, 4, 7) for lo2 in (1, 5)] if tier == "quick" else
-           [dict(zipped=z, phase=ph, older=False, corpus=c_, fail_at=[lo, lo + 2], fail_at2=[1, 1] if ph != 2 else [lo2, lo2 + 5]) for z in (False, True) for ph in (0, 1, 2) for c_ in (0, 1, 2)
-            for lo in range(1, 2 * NOPS, 3) for lo2 in ((1, 7, 13) if ph == 2 else (1,))]),
-          natives=[dict(fail_at=k, zipped=z, phase=ph, older=o, corpus=k % 3, fail_at2=(k * 2) % 11 + 1) for (k, z, ph, o) in ((1, False, 0, False), (2, False, 0, True), (5, True, 0, False), (19, True, 0, True), (20, False, 0, False),
-                                                                                      (3, False, 1, False), (2, True, 1, False), (12, True, 0, False), (9, False, 0, False), (3, True, 2, False), (8, False, 2, False), (14, True, 2, False), (30, True, 2, False))],
+          partitions=lambda tier, seed: [dict(p_, intr=False) for p_ in _fparts(tier)] + [dict(zipped=z, phase=ph, older=False, corpus=0, fail_at2=1, intr=True, fail_at=[lo, lo + 5]) for z in (False, True) for ph in (0, 1) for lo in (1, 7, 13)],
+          natives=_FNAT,
           bounds=lambda tier: {"fault_positions": "every one of the first %d pathlib/shutil/zipfile/pickle operations of a save (a dir save performs 11-12, a zip save 16-17), first 16 of a load (5 / 13)" % NOPS, "containers": ["dir", "zip"],
+                               "fault_kinds": ["OSError", "an interrupt: BaseException that is no Exception (single faulted save or load)"],
                                "corpus": CORPUS, "corpus_used": "entry 0 (quick) / all three (thorough)", "phases": ["save", "load", "two consecutive faulted saves"], "history": "[older save] ; good save ; faulted save|load ; two further saves"},
           outside=["faults below the Python API (torn writes, power loss)", "concurrent writers", "larger models (more operations)"]),
 ]
